@@ -32,7 +32,10 @@ CONSTANTS
     Forge,       \* BOOLEAN: also explore requests for one object that is not an advertised value
     MaxInVain,   \* client gives up after this many haves without ACK (256 in dulwich/client.py)
     AtomicNeg,   \* TRUE: negotiation collapsed into one step (complete walk); object-graph configs
-    PopAny       \* TRUE: MissingObjectFinder pops any todo entry; FALSE: the least (state reduction)
+    PopAny,      \* TRUE: MissingObjectFinder pops any todo entry; FALSE: the least (state reduction)
+    MaxDangle    \* the receiver also holds up to MaxDangle objects of the sender that none of its refs
+                 \*   reaches and whose own closure it lacks (left by an interrupted transfer, a partial
+                 \*   prune, another process): it is complete w.r.t. its refs, its store is not closed
                  \* (Bug, the seeded model defect of the negative controls, is declared in TransferOps)
 
 (***************************************************************************)
@@ -62,6 +65,11 @@ SenderRefs(U, sh)   == {C(i) : i \in sh} \cup TagsOf(U)          \* every tag ha
 SenderStore(U, sh, full) == IF full THEN AllObjects(U) ELSE Closure(U, SenderRefs(U, sh))
 ReceiverTips(rh, rt) == {C(i) : i \in rh} \cup {G(j) : j \in rt}
 
+\* dangling objects of the receiver: any few objects of the sender outside the closure of the
+\* receiver's refs (the tip that is about to be transferred among them)
+DangleSets(U, sh, full, rh, rt) ==
+    {dg \in SUBSET (SenderStore(U, sh, full) \ Closure(U, ReceiverTips(rh, rt))) : Cardinality(dg) <= MaxDangle}
+
 WantSets(U, sh, full) ==
     {w \in SUBSET SenderRefs(U, sh) : w # {} /\ Cardinality(w) <= MaxWants}
     \cup (IF Forge THEN {{o} : o \in SenderStore(U, sh, full) \ SenderRefs(U, sh)} ELSE {})
@@ -90,11 +98,12 @@ Init ==
           full \in SFull, rh \in SUBSET (1..NC),
           m \in Modes, it \in IncTag, th \in Thin :
          \E rt \in SUBSET (1..Len(u.tg)), w \in WantSets(u, sh, full) :
+          \E dg \in DangleSets(u, sh, full, rh, rt) :
             cs = [par |-> u.par, tr |-> u.tr, tg |-> u.tg, sh |-> sh, full |-> full, rh |-> rh, rt |-> rt, wants |-> w,
                   mode |-> m, inctag |-> it, thin |-> th,
                   \* derived once per case (constant during the behaviour)
                   srefs |-> SenderRefs(u, sh), sstore |-> SenderStore(u, sh, full),
-                  r0 |-> Closure(u, ReceiverTips(rh, rt))]
+                  dg |-> dg, r0 |-> Closure(u, ReceiverTips(rh, rt)) \cup dg]
     /\ rstore = RStore0
     /\ cpc = "head" /\ heads = cs.rh /\ wp = WalkerInit(Len(cs.par)) /\ inVain = 0 /\ gotAck = FALSE /\ mayRead = FALSE
     /\ s2c = <<>>
@@ -155,7 +164,10 @@ MofStart(hs) ==
     \* get_tagged() returns {} when the backend repository has no .repo attribute (a plain Repo
     \* behind FileSystemBackend): include-tag then adds nothing
     \E tg \in (IF cs.inctag THEN TaggedChoices(U_, TagsOf(U_)) \cup {<<>>} ELSE {<<>>}) :
-         LET i == MofInit(U_, SStore, hs, cs.wants) IN
+         \* negative control: a sender that can look into the receiver's store (LocalGitClient, a
+         \* pusher told so by the remote) leaves out every wanted tip the receiver already holds as
+         \* an object, without asking whether it holds what the tip reaches
+         LET i == MofInit(U_, SStore, hs, IF Bug = "SkipPresentWant" THEN cs.wants \ RStore0 ELSE cs.wants) IN
          /\ tagged' = tg
          \* negative control: every advertised tag is added, whether or not its target is sent
          /\ todo' = IF Bug = "TaggedAny" /\ cs.inctag
@@ -231,7 +243,9 @@ TypeOK ==
     /\ outcome \in {"", "ok", "refused", "client_error", "unresolved"}
 
 \* the case is inside the property's antecedent: both stores closed, receiver complete
-Antecedent == spc = "wants" => (Closed(U_, SStore) /\ Closed(U_, RStore0))
+\* (complete = it holds everything its refs reach; what else lies in its store need not be closed)
+Antecedent == spc = "wants" => /\ Closed(U_, SStore) /\ Closed(U_, RStore0 \ cs.dg)
+                               /\ Closure(U_, ReceiverTips(cs.rh, cs.rt)) \subseteq RStore0
 
 \* after a successful transfer the receiver holds everything reachable from what it asked for,
 \* and is closed again
@@ -260,7 +274,7 @@ ThinResolvable == outcome # "unresolved"
 \* the pack content does not depend on the order in which the work set is processed and equals
 \* the closed form used for judging real transfers
 Confluent ==
-    (spc = "end" /\ ~(Bug = "TaggedAny")) =>
+    (spc = "end" /\ Bug \notin {"TaggedAny", "SkipPresentWant"}) =>
         sent = MofSent(U_, SStore, {st.haves[i] : i \in 1..Len(st.haves)}, cs.wants, tagged)
 
 \* the server only ever counts as common what the receiver really has (so remote_has is sound)
